@@ -33,6 +33,7 @@ META["text"] += " Also (R3) a child's best_ancestor is the least-estimate ancest
 META["text"] += " R6 also covers the tree vocabulary of the search: is_descendent_of (strictly longer tail ending in the ancestor's), is_suffix, and replace_descendents (every descendant removed, from the back, then the root inserted)."
 META["text"] += " R6 also: before the search the frontier holds [d, c] for every candidate c other than the reported-winner argument and every d != c. R7 also borrows C14.R3 (the NEB predicates' tables)."
 META["text"] += " R6 also: NENAssertion.subsumes holds iff every tail the other assertion rules out has one of this assertion's tails as a suffix (forall-exists)."
+META["text"] += ' R6 also: the search ranges over the contest and winner handed in (the parameters are not re-bound, the candidate list is not edited).'
 
 
 def run(chk):
